@@ -4,6 +4,7 @@ import GixModel.Lemmas.C06c
 import GixModel.Lemmas.C06d
 import GixModel.Lemmas.C06m
 import GixModel.Lemmas.C06e
+import GixModel.Lemmas.C06f
 import GixModel.Props.C05
 import GixModel.Props.C15
 import GixModel.Props.C21
@@ -24,7 +25,8 @@ Part A2 — round 2, Model/C06b.lean: identity_never_panics, signature_never_pan
          capabilities_never_panic, fetch_line_never_panics, loose_ref_never_panics, expand_path_never_panics,
          midx_open_never_panics (Model/C06m.lean)
 Part A3 — round 3, Model/C06e.lean: quote_undo_never_panics, config_int_never_panics,
-         date_raw_never_panics, reflog_line_sites_never_panic
+         date_raw_never_panics, reflog_line_sites_never_panic;
+         Model/C06f.lean: refspec_fetch_parse_never_panics, url_classification_sites_never_panic
 Part C — proved HERE over other properties' models that DO have panic outcomes: index_never_panics
          (C24's State::from_bytes, all thread limits), commit_graph_open_never_panics (C14's File::new)
 Part B — re-exports, under uniform names, of the panic-freedom theorems other properties prove
@@ -204,6 +206,19 @@ theorem date_raw_never_panics (s : Bytes) :
 theorem reflog_line_sites_never_panic (bytes : Bytes) :
     reflogLineSites bytes ≠ .panic ∧ reflogLineSites bytes ≠ .hang :=
   reflogLineSites_total bytes
+
+/-- `gix_refspec::parse(spec, Operation::Fetch)` on ANY bytes (Model/C06f.lean): `&spec[1..]` behind
+`^` / `+`, `spec.split_at(pos)`, `&dst[1..]`, the `find_byte(b'*').expect("glob present")` and
+`buf[glob_pos] = b'a'` of `validated` never fail, and validating the names does not panic (C15). -/
+theorem refspec_fetch_parse_never_panics (spec : Bytes) : refspecFetch spec ≠ .panic ∧ refspecFetch spec ≠ .hang :=
+  refspecFetch_total spec
+
+/-- `gix_url::parse`: the index expressions of gix-url's OWN code in front of the `url` crate —
+`find_scheme` (`&input[..colon]`) and the prelude of `url()` (`input[protocol_end + 3..]`,
+`input.len() - protocol_end`, `input[..min(protocol_end + 3 + 1024, len)]`) — are in range on ANY
+bytes. What the `url` crate and the code behind it do is not modelled (correspondence only). -/
+theorem url_classification_sites_never_panic (input : Bytes) : urlSites input ≠ .panic ∧ urlSites input ≠ .hang :=
+  urlSites_total input
 
 /-! ## Part B: re-exports of other properties' panic-freedom theorems -/
 
